@@ -108,6 +108,67 @@ def closed_form(fam):
     return res
 
 
+def lower_end_chain(fam, fa, th, y, v, tiny):
+    """f(tiny) <= 0 on the widened bracket, for theta in the |tau| <= 0.8 range and y, v in [1e-4, 1-1e-4]:
+    a lemma chain (cut rule; every step is a solver query over the Ackermann encoding with numeric enclosures of
+    exp at constants); the last step is about the traced term `fa` itself.  Returns (status, seconds, steps)."""
+    from symx.core import EXP, LOG, POW, RV
+    T = RV(tiny)
+    B = [v >= RV(1e-4), v <= RV(1 - 1e-4), y >= RV(1e-4), y <= 1]
+    steps = []
+    secs = 0.0
+
+    def step(hyps, goal, hints=()):
+        nonlocal secs
+        r = prove(hyps, goal, hints=hints, timeout_ms=60000, encodings=('ack',))
+        secs += r['secs']
+        steps.append(r['status'])
+        return r['status'] == 'unsat'
+    if fam == 'gumbel':
+        H = B + [th > 1, th <= 5]
+        A = RV(float(-np.log(tiny)))
+        b = -LOG(v)
+        PA, Pb = POW(A, th), POW(b, th)
+        S = PA + Pb
+        Q, R_, B1 = POW(S, 1 / th), POW(S, -1 + 1 / th), POW(b, th - 1)
+        L0 = z3.And(b >= RV(9e-5), b <= RV(9.22))
+        L2 = z3.And(PA >= A, Pb > 0)
+        L3 = Q >= A
+        L4 = z3.And(EXP(-Q) <= RV(1e-307), EXP(-Q) > 0)
+        L5 = z3.And(R_ <= 1, R_ > 0)
+        L6 = z3.And(B1 <= 7500, B1 > 0)
+        ok = (step(H, L0, [EXP(RV(-9.22))]) and step(H + [L0], L2) and step(H + [L0, L2], L3) and step(H + [L3], L4, [EXP(-A)])
+              and step(H + [L0, L2], L5) and step(H + [L0], L6, [EXP(RV(2.23)), EXP(RV(8.92))]))
+        final = H + [L4, L5, L6]
+    else:
+        g = lambda z: EXP(-th * z) - 1  # noqa
+        gU, gV, g1 = g(T), g(v), EXP(-th) - 1
+        num, den = gU * gV + gU, gU * gV + g1
+        if fam == 'frank+':
+            H = B + [th > 0, th <= RV(18.2)]
+            F1 = z3.And(gU >= -th * T, gU < 0, gV > -1, gV < 0)
+            F3 = g1 <= -th / (1 + th)
+            F4 = z3.And(den < 0, num >= RV(1e-4) * den)
+            ok = step(H, F1) and step(H, F3, [EXP(th), EXP(RV(0))]) and step(H + [F1, F3], F4)
+        else:
+            H = B + [th < 0, th >= RV(-18.2)]
+            a = -th
+            G1 = z3.And(gU > 0, gU <= 2 * a * T)
+            G2 = z3.And(gV >= 0, gV + 1 <= RV(8.1e7), g1 >= a)
+            F4 = z3.And(den > 0, num <= RV(1e-4) * den)
+            ok = step(H, G1, [EXP(th * T), EXP(RV(0))]) and step(H, G2, [EXP(RV(18.2))]) and step(H + [G1, G2], F4)
+        final = H + [F4]
+    if not ok:
+        return 'unknown', secs, steps
+    if not step(final, fa <= 0):
+        return 'unknown', secs, steps
+    # vacuity guard: the accumulated hypotheses must be satisfiable
+    r = prove(final, z3.BoolVal(False), timeout_ms=20000, encodings=('ack',))
+    if r['status'] == 'unsat':
+        return 'error', secs, steps + ['vacuous']
+    return 'unsat', secs, steps
+
+
 def brentq_contract(fam, lanes=2):
     """Frank/Gumbel: the function handed to brentq for lane i is u -> h(u, v_i) - y_i, the bracket is
     [EPSILON, 1], f(1) = 1 - y_i >= 0, one scalar root per lane in lane order."""
@@ -132,6 +193,7 @@ def brentq_contract(fam, lanes=2):
     oks = [p for p in paths if p.status == 'ok']
     excs = [p for p in paths if p.status != 'ok']
     TINY = float(np.finfo(float).tiny)
+    seen_tiny = set()
     for p in excs:
         if isinstance(p.exc, ValueError) and 'different signs' in str(p.exc):
             # feasible only if the bracket has no sign change: decided per bracket below
@@ -146,7 +208,14 @@ def brentq_contract(fam, lanes=2):
                     r = prove(hyps, tz(fb) >= 0, timeout_ms=30000)
                     st, secs = r['status'], secs + r['secs']
                 res.append(('bracket [EPSILON,1] is only used with a sign change (f(EPSILON) < 0 tested by the code, f(1) >= 0)', st, None, secs))
-            # bracket [tiny, 1]: f(tiny) <= 0 is a quantitative bound (y >= 1e-4), see the lower-end obligation
+            elif a == TINY and ('tiny', len(calls)) not in seen_tiny:
+                seen_tiny.add(('tiny', len(calls)))
+                i = len(calls) - 1
+                st, secs, steps = lower_end_chain(fam, tz(calls[-1][4]), TH.t, ys[i].t, vs[i].t, TINY)
+                res.append((f'lane {i}: widened bracket [tiny,1] has a sign change for every theta with |tau| <= 0.8 and y, v in [1e-4, 1-1e-4] '
+                            f'(lemma chain, {len(steps)} steps)', st, None, secs))
+            elif a not in (float(EPSILON), TINY):
+                res.append((f'brentq bracket starts at {a!r}', 'sat', None, 0.0))
             continue
         res.append((f'percent_point raises {type(p.exc).__name__}: {str(p.exc)[:80]}', 'sat', None, 0.0))
     if not oks:
@@ -351,8 +420,7 @@ def run(tier, seed):
                 'the default xtol/rtol/maxiter and disp=True; a call that loosens them only gets x in [a,b] and is reported']
     ck.bounds = {'theta': 'Clayton theta>0, Gumbel theta>=1, Frank theta!=0 (reals)', 'y,v': 'open unit interval (reals)', 'lanes': 2}
     ck.outside = ['convergence/tolerance of brentq (scipy)',
-                  'sign of f at the lower end of the widened bracket [tiny, 1] (taken when f(EPSILON) >= 0): a quantitative bound on '
-                  'h(2.2e-308, v) for y, v >= 1e-4 that the axiom instances do not decide; covered by the float64 corner witnesses only',
+                  'sign change on the widened bracket for y or v outside [1e-4, 1-1e-4] or |tau| > 0.8 (the bound is quantitative)',
                   'float64 rounding']
     ck.assumptions = ['brentq contract', 'exact real arithmetic', 'exp/log axioms are sound instances']
     jobs = [('closed', 'clayton'), ('brentq', 'frank+'), ('brentq', 'frank-'), ('brentq', 'gumbel'), ('shortcut', 'gumbel1'),
